@@ -47,8 +47,8 @@ class Outcome:
     def __repr__(self):
         if self.kind == "return":
             return f"return {self.value!r}"
-        if self.kind == "lemma":
-            return "lemma"
+        if self.kind in ("lemma", "loop-body"):
+            return self.kind
         return f"raise {self.exc.__name__}{self.exc_args!r} at {self.where}"
 
 
@@ -98,6 +98,19 @@ class SymE:
     def call(self, f, *args, **kwargs):
         """call a repository function from contract code (interpreted, so it may fork)"""
         return self.interp.call(f, list(args), kwargs)
+
+    def absdict(self, name, entries=(), pycls=None, ci=False, factory=None, absent=()):
+        """a dict with the given explicit entries followed/preceded by an unknown number of further items
+        (an abstract tail); keys in ``absent`` are known not to occur in the tail"""
+        from .absx import AbsColl
+        d = self.odict(pycls, ci, factory, entries)
+        d.tail = dict(items=AbsColl(name + ".items", owner=d, view="items"), keys=AbsColl(name + ".keys", owner=d, view="keys"),
+                      values=AbsColl(name + ".values", owner=d, view="values"), absent=tuple(absent), facts=[])
+        return d
+
+    def abslist(self, name, **info):
+        from .absx import AbsColl
+        return AbsColl(name, **info)
 
 
 class ConcE:
@@ -168,6 +181,12 @@ class ConcE:
 
     def call(self, f, *args, **kwargs):
         return f(*args, **kwargs)
+
+    def absdict(self, name, entries=(), pycls=None, ci=False, factory=None, absent=()):
+        return self.odict(pycls, ci, factory, entries)
+
+    def abslist(self, name, **info):
+        return []
 
 
 # ---------------------------------------------------------------------------------------------
@@ -463,6 +482,9 @@ def verify_case(contract, case, contracts, want_models=True):
     modes = [None]
     if contract.target:
         for ordn, spec in getattr(contract, "loops", {}).items():
+            only = getattr(contract, "loop_cases", {}).get(ordn)
+            if only is not None and case not in only:
+                continue
             for ec in spec.elem_cases:
                 modes.append((contract.target, ordn, ec))
     out = []
